@@ -178,7 +178,7 @@ Proof. exact interp_assign_agrees_with_value_model. Qed.
 (* ---- a value of type T in eight forms (literal / identifier, local, predefined variable, PARAMETER of a functional
    subroutine bound from each of these, if() expression, function result) where a value of type E is expected:
    ctx = arg (built-in argument), ret (return value of a functional subroutine), par (typed parameter).
-   Domain: coerce_rows (3 contexts x 9 expected types) x op_cells_existing (10 value types x 8 forms, existing ones).
+   Domain: coerce_rows (3 contexts x 9 expected types) x op_cells_existing (10 value types x 14 forms, existing ones).
    The operator theorems above range over the same eight forms. *)
 Theorem C05_obs_coerce_domain : map (fun r => match r with (c, e, _, _) => (c, e) end) obs_coerce = coerce_rows.
 Proof. exact obs_coerce_domain. Qed.
@@ -204,6 +204,19 @@ Theorem C05_lint_sub_interp_coerce_refuted : exists cx e lint interp p t form,
   In (cx, e, lint, interp) obs_coerce /\ In (p, t, form) op_cells_existing /\
   N.testbit lint p = true /\ N.testbit interp p = false.
 Proof. exact lint_sub_interp_coerce_refuted. Qed.
+
+(* ---- HOW a local variable operand got its value does not matter: the forms dinit / dexpr / copy / compound /
+   default / inif are value forms of every operator and coercion cell above, and for the LEFT operand: *)
+Theorem C05_ops_left_models_eq_observed : forall op lty lp lint interp p rty form,
+  In (op, lty, lp, lint, interp) obs_ops_left -> In (p, rty, form) op_cells_left ->
+  lint_op_model op lty rty form = N.testbit lint p /\ interp_op_model_left op lty lp rty form = N.testbit interp p /\
+  (N.testbit lint p = true ->
+   N.testbit interp p = true \/ gap_covers "opl-interp" op (String.append lty (String.append ":" lp)) p = true).
+Proof. exact ops_left_models_eq_observed. Qed.
+
+Theorem C05_obs_ops_left_domain :
+  map (fun r => match r with (op, l, lp, _, _) => (op, l, lp) end) obs_ops_left = opl_rows.
+Proof. exact obs_ops_left_domain. Qed.
 
 (* ---- scopes obtained by the linter's CALL-GRAPH INFERENCE (no @scope annotation): the use in the innermost of
    1..3 un-annotated helpers called from every pair (thorough tier: also every triple, depth 2) of lifecycle
@@ -277,6 +290,8 @@ Print Assumptions C05_coerce_models_eq_observed.
 Print Assumptions C05_lint_sub_interp_coerce.
 Print Assumptions C05_lint_sub_interp_coerce_models.
 Print Assumptions C05_lint_sub_interp_coerce_refuted.
+Print Assumptions C05_ops_left_models_eq_observed.
+Print Assumptions C05_obs_ops_left_domain.
 Print Assumptions C05_obs_inferred_domain.
 Print Assumptions C05_lint_inferred_eq_model.
 Print Assumptions C05_lint_inferred3_eq_model.
